@@ -527,6 +527,18 @@ static bool canon(const Dir &d, double xd, const std::string &body, std::string 
     res = "T " + lo.get_num().get_str() + "/" + lo.get_den().get_str();
     return true;
 }
+// the unit of the last digit is fine against the engine's accumulated error (the window above is not used):
+// only there the question "did the engine see a tie" is asked
+static bool fine(const Dir &d, double xd)
+{
+    if (!std::isfinite(xd) || xd == 0) return false;
+    long P = d.has_prec ? d.prec : 6;
+    if (d.has_prec && d.prec > 5000) return false;
+    mpq_class x(fabs(xd));
+    char c = (char)tolower(d.conv);
+    mpq_class u = c == 'f' ? pow10q(-P) : c == 'e' ? pow10q(ilog10q(x) - P) : pow10q(ilog10q(x) - (P == 0 ? 1 : P) + 1);
+    return u / 4 < x / mpq_class(mpz_class(1) << 46);
+}
 // The tie as the engine itself sees it: the scaling steps of print_f (normalisation by ten, fraction digits)
 // run on the host FPU in double, then "is the fractional part of the scaled value exactly 1/2".  Needed where the
 // unit of the last digit is finer than the accumulated error of those steps: there the tie is not a tie of the
@@ -683,7 +695,7 @@ static void judge(const Dir &d, double x, int ret, const Sink &s, const std::str
     {
         std::string canon;
         if (tie::canon(d, x, body, canon)) { o.result = canon; o.tag("tie-class"); }
-        else if (tie::seen(d, x)) { o.result = "Tf"; o.tag("tie-seen-fine"); }
+        else if (tie::fine(d, x) && tie::seen(d, x)) { o.result = "Tf"; o.tag("tie-seen-fine"); }
     }
     Shape S = check_shape(d, body, x);
     if (!S.ok) { o.fail("shape: " + S.why + " igris <" + outs + "> glibc <" + refs + ">"); return; }
@@ -842,7 +854,7 @@ static std::string float_field(const std::string &fmt, const std::vector<long> &
     std::string body = outs.substr(d.pre.size(), outs.size() - d.pre.size() - d.post.size());
     std::string c;
     if (tie::canon(d, x, body, c)) return c;
-    if (tie::seen(d, x)) return "Tf";
+    if (tie::fine(d, x) && tie::seen(d, x)) return "Tf";
     return raw;
 }
 
@@ -1039,9 +1051,14 @@ static void run_pm(const std::vector<std::string> &w, out &o)
 static void run_consts(out &o)
 {
     char b[512];
-    snprintf(b, sizeof b, "BUFF_SZ=%ld FRAC_MAX=%ld EXP_MAX=%ld PREC_DEFAULT=%ld sizeof_DOUBLE=%ld sizeof_int=%ld ops=%ld,%ld,%ld,%ld,%ld,%ld,%ld,%ld sizeof_long_double=%ld",
-             c13_const(0), c13_const(1), c13_const(2), c13_const(3), c13_const(4), c13_const(5), c13_const(6), c13_const(7), c13_const(8),
+    // PRINT_F_BUFF_SZ itself is not part of the compared result: the property does not fix the capacity, only that
+    // nothing is stored outside it - what is compared (and judged below) is the relation print_f_safe_cfg needs;
+    // the absolute size is a tag.  FRAC_MAX / EXP_MAX are observable (digits beyond them are zeros) and compared.
+    long fits = std::max(c13_const(2), 1L) + c13_const(1) + 7 <= c13_const(0);
+    snprintf(b, sizeof b, "buff_fits=%ld FRAC_MAX=%ld EXP_MAX=%ld PREC_DEFAULT=%ld sizeof_DOUBLE=%ld sizeof_int=%ld ops=%ld,%ld,%ld,%ld,%ld,%ld,%ld,%ld sizeof_long_double=%ld",
+             fits, c13_const(1), c13_const(2), c13_const(3), c13_const(4), c13_const(5), c13_const(6), c13_const(7), c13_const(8),
              c13_const(9), c13_const(10), c13_const(11), c13_const(12), c13_const(13), c13_const(14));
+    o.tag(("BUFF_SZ=" + std::to_string(c13_const(0))).c_str());
     o.result = b;
     o.tag("consts");
     // the relation print_f_safe_cfg needs of the constants (Cfg.Fits)
